@@ -123,22 +123,8 @@ def _ctor_shapes(fn):
     return arith, var
 
 def classify(d, fn, xf):
-    # (F55/F56 lift_context and F59 close(-0.0) were repaired in /repo: they are no longer tagged, a recurrence is a violation)
-    if 'inline' in d['strategy'] or 'FuncInline' in d['strategy']:
-        from fpy2.function import Function
-        from fpy2.analysis import DefineUse
-        try:
-            callees = [f for f, _, _ in snapshot(fn)][1:]
-            # F57: a callee reads a free (module-level) variable whose name the caller binds locally
-            local = {str(dd.name) for dd in DefineUse.analyze(fn.ast).defs if not getattr(dd, 'is_free', False)}
-            for cf in callees:
-                if any(str(fv) in local and not isinstance(cf.ast.env.get(str(fv)), (Function, type(fp))) for fv in cf.ast.free_vars): return 'F57'
-            # F58: a callee's `with ... as c` target keeps its name while the uses of c are renamed
-            for cf in callees:
-                for _, blk in T.walk_blocks(cf.ast):
-                    if any(isinstance(st, A.ContextStmt) and isinstance(st.target, NamedId) for st in blk.stmts): return 'F58'
-        except Exception:
-            pass
+    # F55/F56 (lift_context), F57/F58 (inline: free-variable capture, with-as target) and F59 (close, -0.0) were found with this
+    # harness and repaired in /repo: nothing is tagged any more, a recurrence is a violation
     return None
 
 def build_programs(seed, tier):
